@@ -317,6 +317,18 @@ class RecSlot:
         return f"RecSlot({self.field})"
 
 
+class RecRepeated:
+    """A repeated field of a protobuf record held python-side (an immutable tuple in the ghost state): `append` replaces
+    the tuple, so forked states never share a mutable list."""
+    __slots__ = ("owner", "field")
+
+    def __init__(self, owner, field):
+        self.owner, self.field = owner, field
+
+    def __repr__(self):
+        return f"RecRepeated({self.field})"
+
+
 class BoundMethod:
     __slots__ = ("func", "self_")
 
